@@ -232,7 +232,7 @@ def main(argv: list[str] | None = None) -> int:
     ap.add_argument("--seed", type=int, default=0)
     ap.add_argument("--indices", default="", help="start:stop:step or comma list")
     ap.add_argument("--deadline", type=float, default=0.0, help="epoch seconds after which no new run is started")
-    ap.add_argument("--run-timeout", type=float, default=300.0)
+    ap.add_argument("--run-timeout", type=float, default=float(os.environ.get("VERIF_RUN_TIMEOUT_S", "900")))  # bounds hangs only; generous, because an overloaded machine slows a 2000-execution workload several-fold
     ap.add_argument("--minimise", default="", help="violation json in -> replay json out (path)")
     ap.add_argument("--replay", default="")
     ap.add_argument("--out", default="")
